@@ -67,32 +67,32 @@ impl Prop {
     pub fn caps(self, thorough: bool) -> Vec<usize> {
         let upto = |k: usize| (0..=k).collect::<Vec<_>>();
         match (self, thorough) {
-            (Prop::C01, false) => upto(8),
-            (Prop::C01, true) => vec![0, 1, 2, 3, 4, 5, 6, 7, 8, 9, 13, 16],
-            (Prop::C02, false) => upto(8),
-            (Prop::C02, true) => vec![0, 1, 2, 3, 4, 5, 6, 7, 8, 9, 13, 16, 17, 32, 33, 64],
-            (Prop::C03, false) => upto(6),
-            (Prop::C03, true) => upto(8),
-            (Prop::C04, false) => upto(5),
-            (Prop::C04, true) => upto(7),
-            (Prop::C05, false) => upto(5),
-            (Prop::C05, true) => upto(7),
-            (Prop::C06, false) => upto(6),
-            (Prop::C06, true) => upto(8),
-            (Prop::C07, false) => upto(8),
-            (Prop::C07, true) => vec![0, 1, 2, 3, 4, 5, 6, 7, 8, 9, 13, 16],
-            (Prop::C08, false) => upto(5),
-            (Prop::C08, true) => upto(7),
-            (Prop::C09, false) => upto(6),
-            (Prop::C09, true) => upto(8),
-            (Prop::C10, false) => upto(6),
-            (Prop::C10, true) => upto(8),
-            (Prop::C11, false) => upto(6),
-            (Prop::C11, true) => upto(8),
-            (Prop::C12, false) => upto(8),
-            (Prop::C12, true) => vec![0, 1, 2, 3, 4, 5, 6, 7, 8, 9],
-            (Prop::C20, false) => vec![0, 1, 2, 3, 4, 5, 6, 7, 8, 16],
-            (Prop::C20, true) => vec![0, 1, 2, 3, 4, 5, 6, 7, 8, 9, 13, 16, 33],
+            (Prop::C01, false) => vec![0, 1, 2, 3, 4, 5, 6, 7, 8, 9, 13, 16],
+            (Prop::C01, true) => vec![0, 1, 2, 3, 4, 5, 6, 7, 8, 9, 10, 11, 12, 13, 16, 17, 32, 33],
+            (Prop::C02, false) => vec![0, 1, 2, 3, 4, 5, 6, 7, 8, 9, 13, 16, 17, 32, 33, 64],
+            (Prop::C02, true) => vec![0, 1, 2, 3, 4, 5, 6, 7, 8, 9, 10, 11, 12, 13, 16, 17, 31, 32, 33, 64, 65, 100, 128, 129],
+            (Prop::C03, false) => upto(8),
+            (Prop::C03, true) => upto(10),
+            (Prop::C04, false) => upto(7),
+            (Prop::C04, true) => upto(9),
+            (Prop::C05, false) => upto(7),
+            (Prop::C05, true) => upto(9),
+            (Prop::C06, false) => upto(8),
+            (Prop::C06, true) => upto(10),
+            (Prop::C07, false) => vec![0, 1, 2, 3, 4, 5, 6, 7, 8, 9, 13, 16],
+            (Prop::C07, true) => vec![0, 1, 2, 3, 4, 5, 6, 7, 8, 9, 10, 11, 12, 13, 16, 17, 32, 33],
+            (Prop::C08, false) => upto(7),
+            (Prop::C08, true) => upto(9),
+            (Prop::C09, false) => upto(8),
+            (Prop::C09, true) => upto(10),
+            (Prop::C10, false) => upto(8),
+            (Prop::C10, true) => upto(10),
+            (Prop::C11, false) => upto(8),
+            (Prop::C11, true) => upto(10),
+            (Prop::C12, false) => upto(9),
+            (Prop::C12, true) => vec![0, 1, 2, 3, 4, 5, 6, 7, 8, 9, 10, 11, 12],
+            (Prop::C20, false) => vec![0, 1, 2, 3, 4, 5, 6, 7, 8, 9, 13, 16, 33],
+            (Prop::C20, true) => vec![0, 1, 2, 3, 4, 5, 6, 7, 8, 9, 10, 11, 12, 13, 16, 17, 32, 33, 64, 65],
         }
     }
 
